@@ -911,35 +911,8 @@ Proof.
 Qed.
 Print Assumptions C11_restore_and_future_exact.
 
-(** ** it is a GENUINE deviation (not recorded in KF-C11-3).  Witness: a 65536 x 1 terminal; on the alternate
-       screen the cursor goes to the last column (CUP 1;65535, CUF 1) and is saved (DECSC); back on the primary
-       screen the terminal is resized to 10 x 1.  The state is then 10 x 1 ([dumpable], outside kf1 / kf2), the
-       hidden saved column is 65535, the dump writes CSI 1;65536 H, which the parser reads as 0: the restored
-       terminal has the alternate screen's saved column 0 instead of (clamped) 9 - visible after CSI ?1047h ESC 8. *)
-Definition w_stale_input : list N :=
-  E_ ++ str "[?1047h" ++ E_ ++ str "[1;65535H" ++ E_ ++ str "[C" ++ E_ ++ str "7" ++ E_ ++ str "[?1047l".
-Definition w_stale : res vt :=
-  x <- feed_str (vt_new (N.to_nat 65536) 1 None) w_stale_input ;; runM (fst x) [Resize 10 1].
-Definition probe_alt_col (v : vt) : nat :=
-  match feed_str v (E_ ++ str "[?1047h" ++ E_ ++ str "8") with
-  | Ok (y, _) => cur_col (vterm y)
-  | Panic _ => 999
-  end.
-Example C11_stale_asctx_refuted :
-  match w_stale with
-  | Ok v =>
-    match vt_dump v with
-    | Ok d => match feed_str (vt_new 10 1 None) d with
-              | Ok (r, _) =>
-                dumpable (vterm v) && negb (kf1_C11 (vterm v)) && negb (kf2_C11 (vterm v))
-                && kf3b_C11 (vterm v) && (sc_col (asctx (vterm v)) =? N.to_nat 65535)
-                && negb (holds_C11 v r)
-                && (probe_alt_col v =? 9) && (probe_alt_col r =? 0)
-              | Panic _ => false end
-    | Panic _ => false end
-  | Panic _ => false end = true.
-Proof. vm_cast_no_check (eq_refl true). Qed.
-Print Assumptions C11_stale_asctx_refuted.
+(** the witness that this class is a GENUINE deviation (a 65536-column terminal) is in Proofs/C11Witness.v: it is
+    expensive to re-check and therefore kept out of the dependency cone of Properties/C11.v *)
 
 (** non-vacuity of [C11_restore_and_future_exact] / [C11_dumpable'_small_history]: a stale but small saved
     context of the hidden alternate screen (saved at column 19 of 20, then resized to 10 columns) restores *)
